@@ -1,6 +1,7 @@
 (* C12 — property theorems only: statement, `exact <lemma>`, Print Assumptions. *)
 From GL Require Import Stack.Registry Stack.RegSpec Stack.CallFrames Stack.Client
-  Stack.CallFramesFacts Stack.RegistryFacts Stack.ClientFacts.
+  Stack.CallFramesFacts Stack.RegistryFacts Stack.ClientFacts
+  Stack.Handover Stack.HandoverFacts Stack.CtxTree Stack.CtxTreeFacts.
 
 (* Both call-frame stack implementations return, for every history of Push-when-not-full / Pop /
    Last / At / SetSp-not-upwards / Sp / IsEmpty / IsFull, what the bounded list stack returns
@@ -103,3 +104,56 @@ Theorem config_independent : forall oA oB poolA poolB cl,
   run_config oA poolA cl = run_config oB poolB cl /\ run_config oA poolA cl = vspec [] [] cl.
 Proof. exact config_independent_lemma. Qed.
 Print Assumptions config_independent.
+
+(* ---- wave 5 ---- *)
+
+(* A coroutine handing its values to its resumer (switchToParentThread; the registry part): when the
+   status boolean and the values fit below the resumer's limit they all arrive, in order, on top of
+   what the resumer held; otherwise nothing arrives and the resumer gets the (catchable) overflow
+   error with its registry unchanged. In BOTH outcomes the coroutine's values are dropped and the
+   epilogue (yield frame popped / thread killed) has run: the outcome is never HoTorn. *)
+Theorem handover_all_or_nothing : forall p c l lc lim limc wrapped flag nargs,
+  Rr p l lim -> Rr c lc limc -> 0 <= nargs <= len lc ->
+  let vs := handed wrapped flag (lastn nargs lc) in
+  let lc' := firstn (Z.to_nat (len lc - nargs)) lc in
+  (len l + len vs <= lim ->
+     exists p' c', handover p c wrapped flag nargs = HoDone p' c' /\ Rr p' (l ++ vs) lim /\ Rr c' lc' limc) /\
+  (lim < len l + len vs ->
+     exists c', handover p c wrapped flag nargs = HoRefused p c' /\ Rr c' lc' limc).
+Proof. exact handover_all_or_nothing_lemma. Qed.
+Print Assumptions handover_all_or_nothing.
+
+(* the pre-check must count the status boolean: without it (seeded change C12-9) every hand-over to a
+   resumer with room for exactly the values is torn *)
+Theorem handover_nocount_torn : forall p c l lc lim limc flag nargs,
+  Rr p l lim -> Rr c lc limc -> 0 <= nargs <= len lc -> len l + nargs = lim ->
+  handover_gen false p c false flag nargs = HoTorn.
+Proof. exact handover_nocount_torn_lemma. Qed.
+Print Assumptions handover_nocount_torn.
+
+(* With an undone context attached: for every history of threads creating threads (only a live thread
+   runs code) and dying, in any order, the bookkeeping never runs out of fuel, and afterwards the
+   context of every live thread is not done (so mainLoopWithContext never raises for it), while a dead
+   thread that holds no derived context any more has released its own (nothing leaks). *)
+Theorem ctx_live_never_done : forall ops,
+  sdomrun [] ops = true ->
+  exists f, xrun [] ops = Some f /\ map ndead f = srun [] ops /\
+            live_not_done (map ndead f) (done_flags f) = true /\
+            (forall k n, nth_error f k = Some n -> ndead n = false -> nth k (done_flags f) true = false) /\
+            (forall k n, nth_error f k = Some n -> ndead n = true -> nchildren n = 0 -> nth k (done_flags f) false = true).
+Proof. exact ctx_live_never_done_lemma. Qed.
+Print Assumptions ctx_live_never_done.
+
+(* what the model shows after every step of an in-domain history passes check_spec's predicate *)
+Theorem ctx_obs_meet_spec : forall ops,
+  sdomrun [] ops = true -> spec_ctx [] ops (xobs [] ops) = true.
+Proof. exact ctx_obs_meet_spec_lemma. Qed.
+Print Assumptions ctx_obs_meet_spec.
+
+(* the `if p.dead` guard of ctxNode.release is needed (seeded change C12-10): without it a worker that
+   finishes inside its live creator cancels the creator's context *)
+Theorem ctx_release_noguard_refuted :
+  exists f f', Inv (Some 1%nat) f /\ release_noguard 2 f 1 = Some f' /\
+               (exists n, nth_error f' 0 = Some n /\ ndead n = false) /\ nth 0 (done_flags f') false = true.
+Proof. exact release_noguard_refuted_lemma. Qed.
+Print Assumptions ctx_release_noguard_refuted.
